@@ -139,12 +139,13 @@ Proof.
   intros a Ha. mem_read. reflexivity.
 Qed.
 
-Lemma fresh la m base size param fn mem0 sp :
+Lemma fresh la m base size param fn mem0 mem1 sp :
   let slotA := rg m from_reg in
   let rspA := rg m RSP in
   103 <= size ->
   init_context init_top_back_words init_align_mask init_pushes base size param fn mem0
-    = Some (sp, mm m) ->
+    = Some (sp, mem1) ->
+  (forall a, sp <= a < sp + 72 -> mm m a = mem1 a) ->
   rg m to_reg = sp ->
   rspA mod 8 = 0 -> slotA mod 8 = 0 ->
   (rspA <= base \/ base + size <= rspA - 56) ->
@@ -159,18 +160,22 @@ Lemma fresh la m base size param fn mem0 sp :
     mm m' slotA = rspA - 56 /\
     frame_at (mm m') (frame_of m (la resume_label)).
 Proof.
-  intros slotA rspA Hsz Hinit Hto Ha Hs Hdis Hs1 Hs2.
+  intros slotA rspA Hsz Hinit Hkeep Hto Ha Hs Hdis Hs1 Hs2.
   destruct (init_frame base size param fn mem0 Hsz)
     as [sp' [mem' [E [Hal [Hlo [Hhi [Hfr [Hnull [Hpar _]]]]]]]]].
   rewrite E in Hinit. inversion Hinit; subst sp' mem'. clear Hinit E.
+  assert (Hfr' : frame_at (mm m) (fresh_frame sp fn)).
+  { destruct Hfr as [F0 [F1 [F2 [F3 [F4 [F5 [F6 F7]]]]]]].
+    unfold frame_at. cbn [fresh_frame f_sp f_rip f_r15 f_r14 f_r13 f_r12 f_rbx f_rbp] in *.
+    repeat split; auto; rewrite Hkeep by lia; assumption. }
   destruct (roundtrip la m (fresh_frame sp fn)) as [m' [Hex [Hres [Hrdi [Hfc [Hsl HfA]]]]]];
     cbn [fresh_frame f_sp]; auto; try (subst slotA rspA; lia).
   destruct Hres as [R0 [R15_ [R14_ [R13_ [R12_ [RBX_ [RBP_ RSP_]]]]]]].
   cbn [fresh_frame f_sp f_rip f_r15 f_r14 f_r13 f_r12 f_rbx f_rbp] in *.
   exists m'. split; [exact Hex|].
-  assert (Hin : forall a, sp <= a < sp + 72 -> mm m' a = mm m a).
-  { intros a Ia. apply Hfc; subst slotA rspA; lia. }
-  repeat split; auto.
+  assert (Hin : forall a, sp <= a < sp + 72 -> mm m' a = mem1 a).
+  { intros a Ia. rewrite <- Hkeep by lia. apply Hfc; subst slotA rspA; lia. }
+  repeat split; auto; try apply HfA.
   - rewrite Hrdi, Hin by lia. exact Hpar.
   - rewrite RSP_. Z.div_mod_to_equations; lia.
   - lia.
@@ -213,15 +218,17 @@ Lemma unwritten_preserved la m m' r :
 Proof. intros H N. eapply run_unwritten; eauto. Qed.
 
 (* ---------- any sequence of switches among any set of contexts ---------- *)
-(* per context c: [slot c] = address of its ctx_stack_pointer field, its
-   private stack is [lo c, hi c) *)
-Record layout := { slot : nat -> Z; lo : nat -> Z; hi : nat -> Z }.
+(* [live] is the set of contexts; per context c: [slot c] = address of its
+   ctx_stack_pointer field, its private stack is [lo c, hi c) *)
+Record layout := { live : nat -> Prop; slot : nat -> Z; lo : nat -> Z; hi : nat -> Z }.
 
+(* stacks pairwise disjoint; the ctx_stack_pointer fields are distinct aligned
+   words outside every stack *)
 Definition layout_ok (L : layout) : Prop :=
-  (forall c d, c <> d -> hi L c <= lo L d \/ hi L d <= lo L c) /\
-  (forall c d, c <> d -> slot L c <> slot L d) /\
-  (forall c d, ~ (lo L d <= slot L c < hi L d)) /\
-  (forall c, slot L c mod 8 = 0).
+  (forall c d, live L c -> live L d -> c <> d -> hi L c <= lo L d \/ hi L d <= lo L c) /\
+  (forall c d, live L c -> live L d -> c <> d -> slot L c <> slot L d) /\
+  (forall c d, live L c -> live L d -> ~ (lo L d <= slot L c < hi L d)) /\
+  (forall c, live L c -> slot L c mod 8 = 0).
 
 (* [w_out c] = the machine state context c was in when it last called the
    switch (register file, memory), with rip = where it will continue; for a
@@ -235,11 +242,12 @@ Definition suspended_ok (L : layout) (mem : Z -> Z) (c : nat) (g : mach) : Prop 
   (forall a, rg g RSP <= a < hi L c -> mem a = mm g a).
 
 Definition Inv (L : layout) (w : world) : Prop :=
-  forall c, c <> w_cur w -> suspended_ok L (mm (w_m w)) c (w_out w c).
+  live L (w_cur w) /\
+  forall c, live L c -> c <> w_cur w -> suspended_ok L (mm (w_m w)) c (w_out w c).
 
 (* what the caller of fiber_context_swap establishes *)
 Definition switch_pre (L : layout) (w : world) (to : nat) : Prop :=
-  to <> w_cur w /\
+  live L to /\ to <> w_cur w /\
   rg (w_m w) from_reg = slot L (w_cur w) /\
   rg (w_m w) to_reg = mm (w_m w) (slot L to) /\
   rg (w_m w) RSP mod 8 = 0 /\
@@ -249,7 +257,7 @@ Inductive wstep (la : nat -> Z) (L : layout) : world -> world -> Prop :=
 | ws_user w m' :
     (* the running context computes: any registers, any memory except the
        saved parts of the OTHER contexts (stacks are private) *)
-    (forall c, c <> w_cur w ->
+    (forall c, live L c -> c <> w_cur w ->
        mm m' (slot L c) = mm (w_m w) (slot L c) /\
        forall a, rg (w_out w c) RSP - 56 <= a < hi L c -> mm m' a = mm (w_m w) a) ->
     wstep la L w {| w_m := m'; w_cur := w_cur w; w_out := w_out w |}
@@ -277,9 +285,9 @@ Lemma suspended_ok_ext L mem mem' c g :
 Proof.
   intros [H1 [H2 [H3 [[F0 [F1 [F2 [F3 [F4 [F5 [F6 F7]]]]]]] H5]]]] Hs Hm.
   unfold suspended_ok, frame_at in *. cbn [frame_of f_sp f_r15 f_r14 f_r13 f_r12 f_rbx f_rbp f_rip] in *.
-  repeat split; auto; try lia; try (rewrite Hm by lia; assumption).
-  - rewrite Hs. assumption.
-  - intros a Ha. rewrite Hm by lia. auto.
+  repeat split; auto; try lia; try (rewrite Hm by lia; assumption);
+    try (rewrite Hs; assumption).
+  intros a Ha. rewrite Hm by lia. auto.
 Qed.
 
 Lemma switch_ok la L w to :
@@ -289,48 +297,42 @@ Lemma switch_ok la L w to :
     Inv L {| w_m := m'; w_cur := to;
              w_out := upd (w_out w) (w_cur w) (set_rip (w_m w) (la resume_label)) |}.
 Proof.
-  intros [Ldis [Lslot [Lout Lal]]] I [Hne [Hfrom [Hto [Hal [Hlo Hhi]]]]].
-  pose proof (I to Hne) as [S1 [S2 [S3 [S4 S5]]]].
+  intros [Ldis [Lslot [Lout Lal]]] [Lcur I] [Lto [Hne [Hfrom [Hto [Hal [Hlo Hhi]]]]]].
+  pose proof (I to Lto Hne) as [S1 [S2 [S3 [S4 S5]]]].
   set (m := w_m w) in *. set (cur := w_cur w) in *. set (g := w_out w to) in *.
-  pose proof (Ldis cur to (not_eq_sym Hne)) as D.
-  pose proof (Lout cur to) as O1. pose proof (Lout cur cur) as O2. pose proof (Lal cur) as A1.
+  pose proof (Ldis cur to Lcur Lto (not_eq_sym Hne)) as D.
+  pose proof (Lout cur to Lcur Lto) as O1. pose proof (Lout cur cur Lcur Lcur) as O2.
+  pose proof (Lal cur Lcur) as A1.
   assert (Fsp : f_sp (frame_of g (rip g)) = rg g RSP - 56) by reflexivity.
   destruct (roundtrip la m (frame_of g (rip g))) as [m' [Hex [Hres [_ [Hfc [Hsl HfA]]]]]];
-    rewrite ?Fsp, ?Hfrom; auto; try lia.
-  - rewrite Hto, S3. reflexivity.
-  - exists m'. split; [exact Hex|]. split.
-    + destruct Hres as [R0 [R15_ [R14_ [R13_ [R12_ [RBX_ [RBP_ RSP_]]]]]]].
-      cbn [frame_of f_sp f_rip f_r15 f_r14 f_r13 f_r12 f_rbx f_rbp] in *.
-      repeat split; auto; try lia.
-      * intros r Hr. cbn in Hr. repeat (destruct Hr as [<-|Hr]; [assumption|]). contradiction.
-      * intros a Ha. rewrite Hfc; [apply S5; exact Ha | lia | rewrite Hfrom; lia].
-    + intros c Hc. cbn [w_cur w_m w_out] in *.
-      destruct (Nat.eq_dec c cur) as [->|Hcc].
-      * rewrite upd_same. unfold suspended_ok. cbn [set_rip rg mm rip].
-        repeat split; auto; try lia.
-        -- rewrite <- Hfrom. exact Hsl.
-        -- apply HfA.
-        -- apply HfA.
-        -- apply HfA.
-        -- apply HfA.
-        -- apply HfA.
-        -- apply HfA.
-        -- apply HfA.
-        -- apply HfA.
-        -- intros a Ha. apply Hfc; [lia | rewrite Hfrom; lia].
-      * rewrite upd_other by exact Hcc.
-        pose proof (I c Hcc) as Sc. pose proof Sc as [C1 [C2 _]].
-        pose proof (Ldis cur c (not_eq_sym Hcc)) as Dc. pose proof (Lout cur c) as Oc.
-        eapply suspended_ok_ext; [exact Sc | |].
-        -- apply Hfc; [lia | rewrite Hfrom; apply not_eq_sym; apply Lslot; exact (not_eq_sym Hcc) ].
-        -- intros a Ha. apply Hfc; [lia | rewrite Hfrom; lia].
+    rewrite ?Fsp, ?Hfrom; auto; try lia; try (rewrite Hto, S3; reflexivity).
+  exists m'. split; [exact Hex|]. split.
+  - destruct Hres as [R0 [R15_ [R14_ [R13_ [R12_ [RBX_ [RBP_ RSP_]]]]]]].
+    cbn [frame_of f_sp f_rip f_r15 f_r14 f_r13 f_r12 f_rbx f_rbp] in *.
+    repeat split; auto; try lia.
+    + intros r Hr. cbn in Hr. repeat (destruct Hr as [<-|Hr]; [assumption|]). contradiction.
+    + intros a Ha. rewrite Hfc; [apply S5; exact Ha | lia | rewrite Hfrom; lia].
+  - split; [exact Lto|]. intros c Lc Hc. cbn [w_cur w_m w_out] in *.
+    destruct (Nat.eq_dec c cur) as [->|Hcc].
+    + rewrite upd_same. unfold suspended_ok. cbn [set_rip rg mm rip].
+      repeat split; auto; try lia; try apply HfA.
+      * rewrite <- Hfrom. exact Hsl.
+      * intros a Ha. apply Hfc; [lia | rewrite Hfrom; lia].
+    + rewrite upd_other by exact Hcc.
+      pose proof (I c Lc Hcc) as Sc. pose proof Sc as [C1 [C2 _]].
+      pose proof (Ldis cur c Lcur Lc (not_eq_sym Hcc)) as Dc.
+      pose proof (Lout cur c Lcur Lc) as Oc. pose proof (Lout c cur Lc Lcur) as Oc2.
+      eapply suspended_ok_ext; [exact Sc | |].
+      * apply Hfc; [lia | rewrite Hfrom; apply not_eq_sym; apply Lslot; auto ].
+      * intros a Ha. apply Hfc; [lia | rewrite Hfrom; lia].
 Qed.
 
 Lemma inv_step la L w w' : layout_ok L -> Inv L w -> wstep la L w w' -> Inv L w'.
 Proof.
   intros HL I St. destruct St as [w m' Hu | w to m' Hpre Hex].
-  - intros c Hc. cbn [w_cur w_m w_out] in *. destruct (Hu c Hc) as [U1 U2].
-    eapply suspended_ok_ext; [exact (I c Hc) | exact U1 | exact U2].
+  - destruct I as [Lcur I]. split; [exact Lcur|].
+    intros c Lc Hc. cbn [w_cur w_m w_out] in *. destruct (Hu c Lc Hc) as [U1 U2].
+    eapply suspended_ok_ext; [exact (I c Lc Hc) | exact U1 | exact U2].
   - destruct (switch_ok la L w to HL I Hpre) as [m'' [Hex' [_ I']]].
     rewrite Hex in Hex'. inversion Hex'; subst m''. exact I'.
 Qed.
